@@ -118,6 +118,12 @@ INB = T.obj(
 MESSAGE = T.obj(MSG, raw=True, rc=T.range(0, 4095), question=T.const(()), answer=T.list_of(T.ref(RR)))
 _NO_COMMIT = f"all(t.committed == snap(t, old_self).committed for t in refs('{TXN}'))"
 
+_S0 = "message.answer[0].first.serial"
+_FIRST_IXFR = ("(message.rc == 0 and self.soa_rdataset is None and self.incremental and len(message.answer) > 0 "
+               "and (message.answer[0].name is self.origin) and message.answer[0].rdtype == 6)")
+# RFC 1982: the server's serial is behind the base serial
+_BACK = (f"((({_S0} < self.serial and self.serial - {_S0} < 2**31) or ({_S0} > self.serial and {_S0} - self.serial > 2**31)) "
+         "if self.serial is not None else False)")
 REG.contract(
     "dns.xfr.Inbound.process_message",
     heavy=True,
@@ -132,8 +138,13 @@ REG.contract(
               "self.expecting_SOA": None, "self.delete_mode": None, "self.incremental": None, "self.serial": T.opt(T.range(0, 0xFFFFFFFF))},
     modifies_heap=_TX_W,
     # the documented errors of a transfer, and whatever the transaction itself raises; anything else is unexpected
-    raises=[("dns.xfr.TransferError", "True", "may"), ("dns.exception.FormError", "True", "may"),
-            ("dns.xfr.SerialWentBackwards", "True", "may"), ("dns.xfr.UseTCP", "True", "may"), (_P + "_StubError", "True", "may")],
+    raises=[("dns.xfr.TransferError", "message.rc != 0"), ("dns.exception.FormError", "True", "may"),
+            # the first message of an IXFR: an older serial is reported as such; a lone newer SOA over UDP asks for TCP;
+            # the already-up-to-date answer (equal serial) raises neither
+            ("dns.xfr.SerialWentBackwards", f"{_FIRST_IXFR} and {_BACK}"),
+            ("dns.xfr.UseTCP", f"{_FIRST_IXFR} and (not {_BACK}) and (({_S0} != self.serial) if self.serial is not None else False) "
+                           "and self.is_udp and len(message.answer) == 1"),
+            (_P + "_StubError", "True", "may")],
     returns=T.bool,
     max_paths=3000,
     loops={0: loop(
